@@ -509,10 +509,13 @@ def main(argv):
             continue
         if ro not in ("REJECT", "EMPTY", "OTHER"):
             nontrivial.add("L" + t)
-        if mo is not None and mo != "UNMODELLED" and mo != ro:
+        ref = py_literal_value(t)
+        # inputs of an open known-finding class are excluded from the diff (the positive theorems
+        # claim nothing about them, and a repair of the defect must not raise an alarm)
+        excluded = (ref == "OVER" and F25 in known)
+        if mo is not None and mo != "UNMODELLED" and mo != ro and not excluded:
             lit_mism.append((t, ro, mo))
         # the property on the implementation alone, against the independent Python reference
-        ref = py_literal_value(t)
         if ref is None:
             continue
         if ref == "OVER":
